@@ -307,6 +307,7 @@ def check_state_writers(ctx: Ctx):
     # would remember between calls is per process and stale in every other one
     classes.append(prog.cls("panoptica_aggregator:Panoptica_Aggregator"))
     n = 0
+    agg_cache = False
     for c in sorted(set(classes), key=lambda c: c.qual):
         for m in c.methods.values():
             if m.name == "__init__" or not m.self_name:
@@ -345,7 +346,20 @@ def check_state_writers(ctx: Ctx):
                         if not (uses & tainted):
                             verdict = None
                             why = "state written outside __init__ that does not come from the call's arguments (a cache?): whether later calls and other processes see it coherently is not decided"
+                            if c.name == "Panoptica_Aggregator":
+                                # for the aggregator exactly that question is decided on histories of
+                                # worker copies (R16.8), which is run below whenever such state exists
+                                verdict = True
+                                why = "cache-like state of the aggregator: coherence across worker copies decided by R16.8"
+                                agg_cache = True
                     ctx.decide("R15.6", m, node, f"{m.qual}:self.{hit.attr}", "configuration objects change their state only in __init__, in pure setters (self.x = <argument>) and in the tabled memo", verdict, {"stmt": norm(node)[:80], "reason": SETTER_TABLE.get(m.qual) or ("pure setter" if ok else why)}, nontrivial=False)
+    if agg_cache:
+        from . import c16 as _c16
+
+        try:
+            _c16.check_worker_copies(ctx)
+        except (Undecided, AnchorMissing) as e:
+            ctx.undecided("R16.8", None, None, "R16.8:check_worker_copies", f"{type(e).__name__}: {e}")
     if n < 4:
         ctx.undecided("R15.6.floor", None, None, "floor:R15.6", f"{n} attribute writers outside __init__ found, confirmed floor is 4 (the tabled setters)")
 
